@@ -667,3 +667,18 @@ class BuiltinArms:
                 if best is None or n != self.BCALL:
                     best = (fn, regions[variant])
         return best
+
+
+def follow_returns(cg, roots, keep=lambda callee: False, depth=2):
+    """replace each ('call', f, ..) root whose callee is a function of the analysed crates (and not one of the `keep` primitives) by
+    the roots of what f returns: a value built by a private helper is judged by what the helper builds"""
+    out = []
+    for r in roots:
+        if r[0] == "call" and depth > 0 and r[1] in cg.fns and not keep(r[1]):
+            f2 = Fn(cg.fns[r[1]], r[1])
+            sub = f2.trace(0)
+            # parameters of the helper are not resolved back to the caller's arguments: they stay ('param', ..) of the helper
+            out += [("helper-param", r[1]) + tuple(x[1:]) if x[0] == "param" else x for x in follow_returns(cg, sub, keep, depth - 1)]
+        else:
+            out.append(r)
+    return out
